@@ -601,6 +601,8 @@ func genC12(r *Runner) {
 		c.mode, c.purposeTS, c.deprecatedValidate = "full", false, true
 		cases = append(cases, c)
 	}
+	// distribution points that are not plain http are distribution points all the same: one entry per point, never NonRevokable
+	cases = append(cases, crlSchemeFaultCases([][]string{nil, {"unknown"}, {"good"}})...)
 	cases = append(cases, cancelCases(rng)...)
 	cases = append(cases, realFetcherDeltaCases()...)
 	runChainCases(r, cases)
